@@ -1,7 +1,7 @@
 (* C18: asyncio: deletion cancels for good, finished jobs vanish, no task ends in error.
-   Only statements closed by [exact]; proofs are in Proofs/AioProofs.v. *)
+   Only statements closed by [exact]; proofs are in Proofs/AioProofs.v and Proofs/AioDead.v. *)
 From Coq Require Import ZArith List Bool.
-From Sv Require Import PyTime Timer Job Sched Aio Occur TimerProofs JobProofs SchedProofs AioProofs.
+From Sv Require Import PyTime Timer Job Sched Aio Occur TimerProofs JobProofs SchedProofs AioProofs AioTrace AioDead.
 Import ListNotations.
 Open Scope Z_scope.
 
@@ -64,8 +64,41 @@ Example C18_example :
   snd (a_step s2 (TOp (ADelete 0%nat))) = Err SchedulerError.
 Proof. vm_compute. repeat split. Qed.
 
+(* never started again, over EVERY later history: a job whose supervising task is cancelled or finished
+   ([dead] = its record exists and its phase is neither sleeping nor running) stays so through any sequence of
+   scheduling calls, deletions (also from inside other jobs' coroutines) and virtual-time runs, valid or not, and
+   none of these operations records a start of it; deleting a suspended job makes it dead at once *)
+Theorem C18_delete_makes_dead : forall s id a,
+  a_get s id = Some a -> active (aj_phase a) -> dead (a_cancel s id None) id.
+Proof. exact cancel_makes_dead. Qed.
+Theorem C18_dead_step : forall s o s' r id,
+  dead s id -> a_step s o = (s', r) ->
+  dead s' id /\ Forall (fun e => match e with EStart x _ _ _ _ => x <> id | _ => True end) (a_events s').
+Proof. exact a_step_dead. Qed.
+Theorem C18_dead_never_started : forall s id ops,
+  dead s id ->
+  Forall (fun s' => dead s' id /\
+                    Forall (fun e => match e with EStart x _ _ _ _ => x <> id | _ => True end) (a_events s'))
+         (a_trace s ops).
+Proof. exact dead_never_started. Qed.
+
+(* the job set loses no live job: in every reachable state (any history, valid operations or not) a job whose
+   supervisor is suspended - sleeping or inside its coroutine - and has not been asked to die is in the job set;
+   with C18_registered_are_alive the job set is EXACTLY the set of live supervisors *)
+Theorem C18_live_step : forall s o s' r, live_reg s -> a_step s o = (s', r) -> live_reg s'.
+Proof. exact a_step_live. Qed.
+Theorem C18_live_history : forall tz now ops,
+  forall id a, a_get (a_steps (a_init tz now) ops) id = Some a ->
+  active (aj_phase a) -> aj_kill a = false -> In id (a_reg (a_steps (a_init tz now) ops)).
+Proof. exact history_live. Qed.
+
 Print Assumptions C18_delete_cancels.
 Print Assumptions C18_loop_resumes_only_suspended.
 Print Assumptions C18_cancelled_never_resumes.
 Print Assumptions C18_invariant.
 Print Assumptions C18_resume_total.
+Print Assumptions C18_delete_makes_dead.
+Print Assumptions C18_dead_step.
+Print Assumptions C18_dead_never_started.
+Print Assumptions C18_live_step.
+Print Assumptions C18_live_history.
